@@ -7,6 +7,47 @@ import WowVerif.Thm.C09
 import WowVerif.Thm.C01
 namespace WowVerif.Sem
 
+/-- the built-in codecs inside the semantics always emit their 4-byte terminator / count -/
+theorem encPrim_lo (L : Limits) (n : String) (v : Val) (b : Bytes) (h : encPrim n v = some b) : (leafBounds L (.prim n)).lo ≤ b.length := by
+  unfold encPrim at h
+  simp only [leafBounds, primBounds]
+  cases hk : primKind n with
+  | achDone =>
+    cases v with
+    | list vs => simp only [hk] at h; have := encSent_length achDoneFields vs b h; simp; omega
+    | _ => simp [hk] at h
+  | achProg =>
+    cases v with
+    | list vs => simp only [hk] at h; have := encSent_length achProgFields vs b h; simp; omega
+    | _ => simp [hk] at h
+  | splines =>
+    cases v with
+    | list vs =>
+      simp only [hk] at h
+      cases vs with
+      | nil => simp only [encSplines] at h; simp [encInt_length 4 .le _ b h]
+      | cons p ps =>
+        simp only [encSplines] at h
+        cases h0 : encInt 4 .le (ps.length + 1) with
+        | none => simp [h0] at h
+        | some c =>
+          cases h1 : tupleOf [.u32, .u32, .u32] p with
+          | none => simp [h0, h1] at h
+          | some b1 =>
+            cases h2 : iterEnc (tupleOf [.u32]) ps with
+            | none => simp [h0, h1, h2] at h
+            | some b2 =>
+              simp only [h0, h1, h2, Option.some.injEq] at h
+              subst h
+              have := encInt_length 4 .le _ c h0
+              simp; omega
+    | _ => simp [hk] at h
+  | other => cases v <;> simp [hk] at h
+
+theorem encPrim_list (n : String) (v : Val) (b : Bytes) (h : encPrim n v = some b) : ∃ vs, v = .list vs := by
+  unfold encPrim at h
+  cases hk : primKind n <;> cases v <;> simp_all
+
 theorem leaf_lo (L : Limits) (l : Leaf) (v : Val) (b : Bytes) (h : encLeaf l v = some b) : (leafBounds L l).lo ≤ b.length := by
   cases l with
   | int k e =>
@@ -65,7 +106,9 @@ theorem leaf_lo (L : Limits) (l : Leaf) (v : Val) (b : Bytes) (h : encLeaf l v =
     split at h
     · injection h with h; subst h; simp [leafBounds]
     · cases h
-  | prim n => cases v <;> simp [encLeaf] at h
+  | prim n =>
+    have h' : encPrim n v = some b := by cases v <;> simpa [encLeaf] using h
+    exact encPrim_lo L n v b h'
 
 theorem iter_lo (f : Val → Option Bytes) (lo : Nat) (h : ∀ v b, f v = some b → lo ≤ b.length) :
     ∀ (vs : List Val) (b : Bytes), iterEnc f vs = some b → vs.length * lo ≤ b.length := by
